@@ -263,8 +263,8 @@ REG = {
          "executions: Find_Minimum/Find_Maximum on quadratic, quartic-flat, cosh, Lennard-Jones-like, sqrt(1+t^2) and multimodal objectives from any pair of starting abscissae (not worse "
          "than the start, Find_Maximum(-f) identical bits, within the distance implied by the tolerance and the flatness of f), and minimize (three overloads, in child processes) on "
          "convex bowls of dimension 1..6 and multimodal objectives (returns, not worse than the start, fmin/y/current_simplex consistent with the objective bit for bit, distance).",
-    note="The distance clause for the simplex method is violated by the unchanged code in 1-15% of random bowls (termination on the fractional spread of the vertex values): listed as a "
-         "known finding, so a change that only worsens simplex convergence shows up as model drift, not as a violation. Shrink steps are not exercised by the exact model. Brent/bracketing "
-         "are not modelled step by step.",
+    note="The distance clause for the simplex method is decided on a fixed stream of bowls (400 quick / 2000 thorough, independent of the seed); the unchanged code violates it on 141 of the "
+         "2000 (termination on the fractional spread of the vertex values), which are listed one by one in the known finding, so any other failing case is reported. Shrink steps are not "
+         "exercised by the exact model. Brent/bracketing are not modelled step by step.",
     technique="exact-rational TLA+ transcription of Nelder-Mead (TLC exhaustive on a lattice of quadratics and simplices), per-run replay with exact comparison of evaluation sequences, trace validation of recorded minimisations"),
 }
